@@ -40,7 +40,7 @@ def late_answer_scenario(rng, reqs, kt):
     return {'retries': rng.choice([0, 1]), 'delay': delay, 'script': script, 'reqs': [rq], 'plan': [('good', 1, False)]}
 
 
-def run_suite(res, prop, tier, seed, n_quick, n_thorough, n_req=1, force=None, oracle=None, comp='request', pair_every=0, late_every=0, tty_every=4):
+def run_suite(res, prop, tier, seed, n_quick, n_thorough, n_req=1, force=None, oracle=None, comp='request', pair_every=0, late_every=0, tty_every=4, history_every=0):
     mt = R.message_table()
     kt = R.key_tables()
     sk = ','.join(str(k) for k in kt['signed']) or '-'
@@ -56,6 +56,11 @@ def run_suite(res, prop, tier, seed, n_quick, n_thorough, n_req=1, force=None, o
         if pair_every and k % pair_every == 0:
             pair = [r for r in reqs if r.label in ('UbxCfgPrtPoll', 'AppCfgPrtUsbPoll')]
             sc = S.scenario(rng, pair, kt, n_req=rng.choice([2, 3]), force='good')
+        elif history_every and k % history_every == 2:
+            # a configuration poll first, then a set / poll / mga on the same object (late answers to the first may pass by)
+            cfgpolls = [r for r in reqs if r.op == 'poll' and r.cid[0] == 6]
+            later = [r for r in reqs if r.op in ('set', 'set', 'poll', 'mga')]
+            sc = S.scenario(rng, reqs, kt, force='good', rqs=[rng.choice(cfgpolls), rng.choice(later)] + ([rng.choice(later)] if rng.random() < 0.3 else []))
         elif late_every and k % late_every == 0:
             sc = late_answer_scenario(rng, reqs, kt)
         else:
